@@ -67,6 +67,33 @@ pub fn affine_case(cx: &mut Ctx, n: u64, case: &Value) {
     let tk = t0.compose_many(&[e1, kk]);
     chk("compose_many", "pre.compose_many([elem, K])".into(), near(&entries(&tk), &mat(&case["then_k"]), tol * 10.0), format!("{:?}", entries(&tk)));
     chk("is_identity", "is_identity".into(), t1.is_identity() == (near(&post, &[1.0, 0.0, 0.0, 0.0, 1.0, 0.0], 0.0)) || !exact, String::new());
+    // small angles and the f32 scalar type: skew by x degrees has b = tan(x) and d = tan(y) also when the angle is tiny (the
+    // documented matrix; reference values from the platform's tan), rotate by a tiny angle is not the identity
+    if name == "skewed" {
+        let org = o.unwrap();
+        for deg in [1e-3f64, 1e-5, 5e-6, 2e-6, 1e-9, 1e-12] {
+            let t64 = AffineTransform::<f64>::skew(deg, -deg, org);
+            let w = deg.to_radians().tan();
+            let ok64 = (t64.b() - w).abs() <= 1e-9 * w && (t64.d() + w).abs() <= 1e-9 * w && t64.a() == 1.0 && t64.e() == 1.0;
+            chk("skew_small_angle", format!("AffineTransform::<f64>::skew({deg}, -{deg}): b, d"), ok64, format!("b = {:e}, d = {:e}, want +-{:e}", t64.b(), t64.d(), w));
+            if deg >= 1e-6 {
+                let t32 = AffineTransform::<f32>::skew(deg as f32, -(deg as f32), geo::Coord { x: org.x as f32, y: org.y as f32 });
+                let ok32 = ((t32.b() as f64) - w).abs() <= 1e-4 * w && ((t32.d() as f64) + w).abs() <= 1e-4 * w;
+                chk("skew_small_angle", format!("AffineTransform::<f32>::skew({deg}, -{deg}): b, d"), ok32, format!("b = {:e}, d = {:e}, want +-{:e}", t32.b(), t32.d(), w));
+                let s32 = AffineTransform::<f32>::identity().skewed(deg as f32, 0.0, geo::Coord { x: 0.0f32, y: 0.0 });
+                chk("skew_small_angle", format!("AffineTransform::<f32>::skewed({deg}, 0): b"), ((s32.b() as f64) - w).abs() <= 1e-4 * w, format!("b = {:e}", s32.b()));
+            }
+        }
+    }
+    if name == "rotated" {
+        for deg in [1e-3f64, 1e-6, 1e-9] {
+            let r = AffineTransform::<f64>::rotate(deg, o.unwrap());
+            let w = deg.to_radians().sin();
+            chk("rotate_small_angle", format!("AffineTransform::rotate({deg}): sine entries"), (r.d() - w).abs() <= 1e-9 * w && (r.b() + w).abs() <= 1e-9 * w, format!("b = {:e}, d = {:e}", r.b(), r.d()));
+            let r32 = AffineTransform::<f32>::rotate(deg as f32, geo::Coord { x: 0.0f32, y: 0.0 });
+            if deg >= 1e-6 { chk("rotate_small_angle", format!("AffineTransform::<f32>::rotate({deg}): sine entries"), ((r32.d() as f64) - w).abs() <= 1e-4 * w, format!("d = {:e}", r32.d())); }
+        }
+    }
     // identity(): the neutral element of compose on both sides, equal to Default, is_identity, its own inverse
     {
         let id = AffineTransform::<f64>::identity();
